@@ -180,5 +180,5 @@ Definition model_view_r (c : c16case) : view :=
   end.
 End Rounding.
 
-Definition mismatches := mismatches_r RCeil true false.
-Definition model_view := model_view_r RCeil true false.
+Definition mismatches := mismatches_r RCeil true true.
+Definition model_view := model_view_r RCeil true true.
